@@ -86,6 +86,17 @@ Definition fields_show (raw : bytes) : string := show_fields (parse_fields raw).
 Inductive vcase :=
 | VLogin (c : bytes * bytes * N * bytes * bytes * bytes * list bytes)
 | VChallenge (c : bytes * bytes * bytes * N)
-| VParse (raw : bytes).
+| VParse (raw : bytes)
+| VSession (c : bytes * bytes * list (N * bytes * bytes * bytes * list bytes)).
+
+(** several responses presented to ONE factory, the clock moving in between: decode() keeps no
+    state between calls, so each step is judged on its own *)
+Definition run_session (c : bytes * bytes * list (N * bytes * bytes * bytes * list bytes)) : string :=
+  let '(priv, realm, steps) := c in
+  String.concat "/" (map (fun st => let '(now, raw, method, host, pws) := st in
+                                    run_raw (priv, realm, now, raw, method, host, pws)) steps).
+
 Definition run (c : vcase) : string :=
-  match c with VLogin x => run_raw x | VChallenge y => opaque_show y | VParse r => fields_show r end.
+  match c with
+  | VLogin x => run_raw x | VChallenge y => opaque_show y | VParse r => fields_show r | VSession z => run_session z
+  end.
